@@ -91,6 +91,7 @@ def r08_5(chk, tier, units=('core', 'reflect')):
                         fn['n'], A.callee_name(call) if call else '?', d.get('n'), d.get('l')), None, fn['q'])
     chk.require(n >= 20, 'R08.5: only %d outcome locals found' % n)
 
+RESET_NAMES = ('reset', 'reinitialize')
 RESET_UNITS = ('core', 'cbor', 'msgpack', 'ubjson', 'bson', 'csv')
 _GROW = {'push_back', 'emplace_back', 'insert', 'append', 'emplace', 'push', 'try_emplace'}
 _SHRINK = {'pop_back', 'pop', 'erase'}
@@ -133,7 +134,8 @@ def r08_6(chk, tier, units=RESET_UNITS, floor=30):
             classes.setdefault(A.strip_targs(f['cls']), []).append(f)
         for cls, fns in sorted(classes.items()):
             fns = U.one_per_inst(fns)
-            resets = [f for f in fns if f['n'] == 'reset' and not f['params']]
+            # the parameterless reset(), and reinitialize() - what the cursors and readers call on the parser when they are given a new source
+            resets = [f for f in fns if f['n'] in RESET_NAMES and not f['params']]
             if not resets: continue
             byname = {}
             for f in fns: byname.setdefault(f['n'], []).append(f)
@@ -144,22 +146,23 @@ def r08_6(chk, tier, units=RESET_UNITS, floor=30):
                         for g_ in byname.get(A.callee_name(c), []):
                             if id(g_) not in seen: seen.add(id(g_)); w |= closure(g_, seen)
                 return w
-            restored = closure(resets[0], {id(resets[0])})
             kinds = {}; where = {}
             for f in fns:
-                if f.get('fk') in ('CXXConstructor', 'CXXDestructor') or f['n'] == 'reset' or f['n'].startswith('operator'): continue
+                if f.get('fk') in ('CXXConstructor', 'CXXDestructor') or f['n'] in RESET_NAMES or f['n'].startswith('operator'): continue
                 for m, ks in _member_writes(f).items():
                     kinds.setdefault(m, set()).update(ks); where.setdefault(m, f)
-            chk.analysed(resets[0])
             short = cls.split('::')[-1]
-            for m in sorted(kinds):
+            for rf in sorted(resets, key=lambda f: f['n']):
+              restored = closure(rf, {id(rf)})
+              chk.analysed(rf)
+              for m in sorted(kinds):
                 if 'assign' in kinds[m] or not ({'grow', 'step'} & kinds[m]): continue
                 n += 1
-                site = '%s %s reset() ~ %s' % (resets[0]['file'], short, m)
+                site = '%s %s %s() ~ %s' % (rf['file'], short, rf['n'], m)
                 if m in restored: chk.ok('R08.6', site, {'class': short, 'member': m, 'accumulates_by': sorted(kinds[m])})
                 else:
-                    chk.fail('R08.6', site, resets[0]['file'], resets[0]['l'], '%s::reset() leaves `%s` as it is, while %s (and no member function other than the constructors) only ever %s it: '
-                             'what the previous document put there is still in it when the object is used again' % (short, m, where[m]['n'], 'grows' if 'grow' in kinds[m] else 'steps'), None, resets[0]['q'])
+                    chk.fail('R08.6', site, rf['file'], rf['l'], '%s::%s() leaves `%s` as it is, while %s (and no member function other than the constructors) only ever %s it: '
+                             'what the previous document put there is still in it when the object is used again' % (short, rf['n'], m, where[m]['n'], 'grows' if 'grow' in kinds[m] else 'steps'), None, rf['q'])
     chk.require(n >= floor, 'R08.6: only %d accumulating members found in classes with reset()' % n)
 
 def run(chk, tier, only_rule=None):
